@@ -24,6 +24,70 @@ def identity_fails(rig):
     return None
 
 
+def wrapped_learning_model_fails(kind, dynamic, seed, T):
+    """IncrementalSage with a library wrapper as model function around an online learner that is trained after every explained
+    observation; discrete features, so observations repeat (also consecutively). After every call the values must sum to the
+    explained loss up to rounding."""
+    import random as pyrandom
+    import numpy as np
+    from ixai.explainer import IncrementalSage
+    from ixai.utils.wrappers import RiverWrapper, SklearnWrapper
+    r = pyrandom.Random(seed)
+    pyrandom.seed(seed)
+    np.random.seed(seed % (2 ** 31))
+    names = ["a", "b", "c"]
+
+    class Learner:
+        """online linear model; predict_one returns a number, a string label (river-labels) or an array row (sklearn-like)"""
+        def __init__(self):
+            self.w = {n: 0.0 for n in names}
+            self.b = 0.0
+
+        def raw(self, x):
+            return self.b + sum(self.w[n] * x[n] for n in names)
+
+        def predict_one(self, x):
+            v = self.raw(x)
+            if kind == "river-labels":
+                return "".join(list("pos" if v > 0.5 else ("mid" if v > 0.2 else "neg")))
+            return v
+
+        def predict(self, X):
+            X = np.asarray(X, dtype=float)
+            return np.array([self.b + sum(self.w[n] * row[i] for i, n in enumerate(names)) for row in X])
+
+        def learn_one(self, x, y):
+            err = self.raw(x) - y
+            for n in names:
+                self.w[n] -= 0.1 * err * x[n]
+            self.b -= 0.1 * err
+    m = Learner()
+    if kind == "sklearn-like":
+        fn = SklearnWrapper(m.predict, feature_names=names)
+    else:
+        fn = RiverWrapper(m.predict_one)
+
+    def loss(y, p):
+        if kind == "river-labels":
+            return 1.0 - p.get("pos", 0.0) * y - p.get("neg", 0.0) * (1 - y)
+        return (p["output"] - y) ** 2
+    ex = IncrementalSage(fn, loss, names, n_inner_samples=2, dynamic_setting=dynamic, smoothing_alpha=0.1)
+    x = {n: r.randint(0, 1) for n in names}
+    for t in range(T):
+        if r.random() < 0.5:       # otherwise the same observation arrives again
+            x = {n: r.randint(0, 1) for n in names}
+        y = float(x["a"] or x["b"])
+        ex.explain_one(dict(x), y)
+        m.learn_one(x, y)
+        vals = ex.importance_values
+        s_ = float(sum(vals.values()))
+        el = float(ex.explained_loss)
+        scale = max(1.0, abs(float(ex.marginal_loss)), abs(float(ex.model_loss)))
+        if t >= 1 and abs(s_ - el) > 1e-9 * scale:
+            return f"after call {t + 1} the values sum to {s_!r} but the explained loss is {el!r} (difference {abs(s_ - el):.3e})"
+    return None
+
+
 def run(tier="quick", seed=0, replay=None):
     chk = core.Check("C01", tier, seed, "proof")
     chk.rule = ("IncrementalSage configurations (static/dynamic, alpha in {1,1/2,1/3,1/1000,999/1000}, d 1..4, n_inner 1..3, "
@@ -38,7 +102,8 @@ def run(tier="quick", seed=0, replay=None):
     if replay:
         print(open(replay).read())
         return 1
-    core.lean_stage(chk, "C01", extra_props=["E2E"])
+    core.lean_stage(chk, "C01", extra_props=["E2E", "E2Eb"])
+    core.soft_bridge(chk)
     from harness import cover
     from harness import fingerprint
     fingerprint.direct(chk, ['ixai/explainer/sage/incremental.py', 'ixai/explainer/base.py', 'ixai/utils/tracker/multi_value.py', 'ixai/imputer/marginal_imputer.py', 'ixai/imputer/default_imputer.py'])
@@ -103,6 +168,22 @@ def run(tier="quick", seed=0, replay=None):
                                names_kind="str", storage_kind="geom", storage_size=2, imputer_kind="joint",
                                loss_kind="arbitrary", lbb=False)
                     one(cfg, 3, perms=[p1, p2])
+    # the model function is one of the library's own wrappers around a model that keeps learning between the calls (test-then-train),
+    # on a stream with immediately repeated observations; binary64, so the identity is checked to rounding
+    for wi in range(chk.count(6, 40)):
+        wk = ["river", "river-labels", "sklearn-like"][wi % 3]
+        dyn = (wi // 3) % 2 == 0
+        sd = chk.rng.randrange(10 ** 6)
+        chk.case({"wrapped_learning_model": wk, "dynamic": dyn, "seed": sd}, nontrivial=True, sample=(wi == 0))
+        chk.stat("wrapped_learning_model")
+        try:
+            f = wrapped_learning_model_fails(wk, dyn, sd, 40 if quick else 120)
+        except Exception as ex:
+            f = f"raised {core.err_kind(ex)}: {ex}"
+        if f:
+            chk.violation("efficiency-wrapped-model", f"IncrementalSage on a {wk} wrapper around a model trained between the calls "
+                          f"(dynamic={dyn}, seed {sd}): {f}", {"wrapped_learning_model": wk, "dynamic": dyn, "seed": sd})
+            break
     _expl.long_stream_probe(chk, "sage", ["ixai/explainer/sage/incremental.py", "ixai/explainer/base.py", "ixai/utils/tracker/multi_value.py"],
                             "IncrementalSage", identity=identity_fails)
     try:
